@@ -612,5 +612,22 @@ func sameCell(a, b ssa.Value) bool {
 	}
 	ua, ok1 := a.(*ssa.UnOp)
 	ub, ok2 := b.(*ssa.UnOp)
-	return ok1 && ok2 && ua.Op == token.MUL && ub.Op == token.MUL && ua.X == ub.X
+	return ok1 && ok2 && ua.Op == token.MUL && ub.Op == token.MUL && sameAddr(ua.X, ub.X)
+}
+
+// sameAddr: structurally the same address expression (go/ssa does no CSE, so
+// `x.f` evaluated twice yields two FieldAddr instructions).
+func sameAddr(a, b ssa.Value) bool {
+	if a == b {
+		return true
+	}
+	switch x := a.(type) {
+	case *ssa.FieldAddr:
+		y, ok := b.(*ssa.FieldAddr)
+		return ok && x.Field == y.Field && (sameAddr(x.X, y.X) || sameCell(x.X, y.X))
+	case *ssa.IndexAddr:
+		y, ok := b.(*ssa.IndexAddr)
+		return ok && x.Index == y.Index && (sameAddr(x.X, y.X) || sameCell(x.X, y.X))
+	}
+	return false
 }
